@@ -67,6 +67,21 @@ def check(repo: Repo, rep: Report) -> None:
                        f"{f.qual}: the source's {kind} is not delivered as a {kind} to every open window and then to the subscriber "
                        f"(windows left open, ended with the wrong kind, or the subscriber told first)")
     rule_refcount_outputs(repo, rep)
+    gj = repo.fn(f"{O}_groupjoin.py", "group_join_.group_join.subscribe")
+    fac_gj = repo.fn(f"{O}_groupjoin.py", "group_join_")
+    for hname, sel in (("on_next_left", fac_gj.params[1] if len(fac_gj.params) > 1 else "left_duration_mapper"),):
+        h = gj.child(hname)
+        if h is None:
+            continue
+        regs = [s for s in sites(h) if isinstance(s.node, ast.Assign) and isinstance(s.node.targets[0], ast.Subscript) and isinstance(s.node.value, ast.Name)
+                and any(isinstance(x.node, (ast.Assign, ast.AnnAssign)) and x.node.value is not None
+                        and u(x.node.targets[0] if isinstance(x.node, ast.Assign) else x.node.target) == s.node.value.id
+                        and isinstance(x.node.value, ast.Call) and call_name(x.node.value) == "Subject" for x in sites(h))]
+        user = [s for s in sites(h) if isinstance(s.node, ast.Call) and isinstance(s.node.func, ast.Name) and s.node.func.id == sel]
+        rep.ob("F1-terminal-fan-out", h, "group_join: the new window is registered before its duration selector is called", bool(regs) and bool(user)
+               and all(r.index < c.index for r in regs[:1] for c in user),
+               "group_join registers the window it has just handed downstream only after calling the user's duration selector: when the "
+               "selector raises, the error fan-out does not reach that window (it never terminates and keeps its reference on the sources)")
     rep.rule("T1-rollover", "window_with_time: close iff next_span <= next_shift, open iff next_shift <= next_span (both when equal), evaluated for the three orderings", floor=4)
     rule_rollover(repo, rep)
     for (rel, name), (wop, wargs) in BUFFERS.items():
